@@ -111,14 +111,28 @@ def presentations(rng, params, kwonly, binding, limit=40):
                         res.append(dict(pargs=[binding[p] for p in params[:i]], pkw={p: binding[p] for p in pk},
                                         args=[binding[p] for p in remaining[:r]], kwargs={p: binding[p] for p in perm}))
     rng.shuffle(res)
-    return res[:limit]
+    res = res[:limit]
+    for pr in res:
+        # the partial application is made in one step or in two chained ones (positional prefix cut anywhere, keywords dealt out)
+        if len(pr["pargs"]) + len(pr["pkw"]) >= 2 and rng.random() < 0.6:
+            pr["split"] = [rng.randint(0, len(pr["pargs"])), sorted(k for k in pr["pkw"] if rng.random() < 0.5)]
+    return res
+
+
+def make_partial(fn, pres):
+    """the partial application a presentation describes (chained in two steps when it says so)"""
+    if not (pres["pargs"] or pres["pkw"]):
+        return fn
+    if pres.get("split"):
+        j, first_kw = pres["split"]
+        f = fn.partial(*pres["pargs"][:j], **{k: v for k, v in pres["pkw"].items() if k in first_kw})
+        return f.partial(*pres["pargs"][j:], **{k: v for k, v in pres["pkw"].items() if k not in first_kw})
+    return fn.partial(*pres["pargs"], **pres["pkw"])
 
 
 def real_fwa(fn, pres, ctx):
     from twosigma.memento.reference import FunctionReferenceWithArguments
-    f = fn
-    if pres["pargs"] or pres["pkw"]:
-        f = fn.partial(*pres["pargs"], **pres["pkw"])
+    f = make_partial(fn, pres)
     return FunctionReferenceWithArguments(f.fn_reference(), tuple(pres["args"]), dict(pres["kwargs"]), ctx or None)
 
 
@@ -285,12 +299,12 @@ def main(chk, replay=None):
             # (d) the body receives the normalized values; real hit / miss
             c04fns.REC.calls.clear()
             pr = pres[0]
-            f = fn.partial(*pr["pargs"], **pr["pkw"]) if (pr["pargs"] or pr["pkw"]) else fn
+            f = make_partial(fn, pr)
             try:
                 f(*pr["args"], **pr["kwargs"])
                 n1 = len(c04fns.REC.calls)
                 pr2 = pres[-1]
-                f2 = fn.partial(*pr2["pargs"], **pr2["pkw"]) if (pr2["pargs"] or pr2["pkw"]) else fn
+                f2 = make_partial(fn, pr2)
                 f2(*pr2["args"], **pr2["kwargs"])
                 if len(c04fns.REC.calls) != n1:
                     viol("an equivalent presentation missed the memoized result", {"clause": "shares-result"}, fn=name)
@@ -396,13 +410,15 @@ def main(chk, replay=None):
             rng.shuffle(ctxs)
             c04fns.s1.forget_all()
             c04fns.n_outer.forget_all()
+            c04fns.n_top.forget_all()
             c04fns.REC.calls.clear()
+            entry_fn = c04fns.n_top if ni % 2 else c04fns.n_outer          # (one or two frames above the keyed call)
             try:
                 seen = []
                 for cx in ctxs[:2]:
-                    c04fns.n_outer.with_context_args(cx)(v)
+                    entry_fn.with_context_args(cx)(v)
                     seen.append(sorted(mm.invocation_metadata.fn_reference_with_args.arg_hash for mm in c04fns.s1.list_mementos()))
-                c04fns.n_outer(v)
+                entry_fn(v)
                 inner_runs = len([c for c in c04fns.REC.calls if c[0] == "s1"])
                 want = [real_fwa(c04fns.s1, dict(pargs=[], pkw={}, args=[], kwargs={"a": v}), cx).arg_hash for cx in ctxs[:2]]
             except Exception as e:
@@ -417,6 +433,7 @@ def main(chk, replay=None):
                 viol("nested calls under different context args shared a result", {"clause": "context", "via": "nested"}, contexts=ctxs[:2], executions=inner_runs)
         c04fns.s1.forget_all()
         c04fns.n_outer.forget_all()
+        c04fns.n_top.forget_all()
         # malformed stream: both sides reject
         for bad in [(1, 2), {1, 2}, {1: 2}, b"x", object(), complex(1, 2), [b"x"], {"a": (1,)}]:
             try:
